@@ -511,15 +511,15 @@ def check(run):
     C = run.repo.cls("utype.parser.rule", "Constraints")
     names = constraint_names(run)
     run.floor("R02a", "constraints declared in Rule.__constraints__", len(names), 12)
-    r02a(run, C, names)
-    r02_contains(run)
-    r02b(run, C, names)
-    r02c(run)
-    r02d(run, C, names)
-    r02e(run, C)
-    r02f(run)
+    run.rule(r02a, run, C, names)
+    run.rule(r02_contains, run)
+    run.rule(r02b, run, C, names)
+    run.rule(r02c, run)
+    run.rule(r02d, run, C, names)
+    run.rule(r02e, run, C)
+    run.rule(r02f, run)
     # shared with C01: every path of Rule.parse to its final return passes the validators (an invalid value is never
     # accepted only if no path skips them)
     from . import c01
     run.rules_run.append("R01c")
-    c01.r01c(run)
+    run.rule(c01.r01c, run)
